@@ -207,6 +207,11 @@ type vUniverse struct {
 	nextAux  int // ids for derived hashes that are no lookup target
 	ampTbl   []vAmpEntry
 	ampSeen  map[string]bool
+	// circuit keys: key id -> (ChanID, HtlcID) drawn over the full uint64 domain
+	kr      *vrng
+	keys    map[int]CircuitKey
+	keyIDs  map[CircuitKey]int
+	chans   []uint64
 }
 
 // vAmpEntry is one point of the reconstruction oracle: descs (share id, child
@@ -297,13 +302,74 @@ func (u *vUniverse) addrOf(id int) [32]byte {
 	}
 	return u.addr[id-1]
 }
-func (u *vUniverse) key(k int) CircuitKey {
-	return CircuitKey{
-		ChanID: lnwire.NewShortChanIDFromInt(u.chanBase + uint64(k%2)),
-		HtlcID: uint64(k),
+// Boundary classes of a uint64 key component as the stores see it: the SQL
+// store binds HtlcID as int64 and renders ChanID as decimal text, the KV store
+// writes 8 big-endian bytes each.  vAliasBase is aliasmgr.StartingAlias (the
+// scid of every zero-conf / alias channel: block height 16,000,000, > 2^63).
+var vAliasBase = lnwire.ShortChannelID{BlockHeight: 16_000_000}.ToUint64()
+
+var vU64Classes = []uint64{0, 1, 2, 1000, 1<<31 - 1, 1 << 31, 1<<31 + 1, 1<<32 - 1, 1 << 32,
+	1<<32 + 1, 1 << 62, 1<<63 - 1, 1 << 63, 1<<63 + 1, vAliasBase, vAliasBase + 1,
+	vAliasBase + 7<<16 + 3, 1<<64 - 2, 1<<64 - 1}
+
+func (u *vUniverse) u64Class(r *vrng) uint64 {
+	v := vPick(r, vU64Classes)
+	if r.intn(4) == 0 {
+		v += uint64(r.intn(3)) // wraps at 2^64-1: also a class
 	}
+	return v
 }
-func (u *vUniverse) keyID(k CircuitKey) int { return int(k.HtlcID) }
+
+// HtlcID is the per-channel counter of update_add_htlc: lnwallet.ReceiveHTLC
+// only accepts the next sequential id, so ids >= 2^63 cannot occur (and the SQL
+// store, which keeps the id in a signed 64-bit column, refuses to read such a
+// row back: "invalid HTLC ID value").  The domain is therefore [0, 2^63).
+func (u *vUniverse) htlcIDClass(r *vrng) uint64 {
+	v := u.u64Class(r)
+	if v >= 1<<63 {
+		v = 1<<63 - 1 - v%5
+	}
+	return v
+}
+
+// key maps a key id of the trace / model to the circuit key used on the wire.
+// ChanID comes from a small per-case pool of channels (a normal one, an alias
+// one, random boundary classes) so that htlcs of one invoice arrive over
+// different kinds of channels and several htlcs share a channel; HtlcID is a
+// boundary class or a small counter.  The mapping is injective and depends on
+// (case rng, k) only, hence is the same on both stores.
+func (u *vUniverse) key(k int) CircuitKey {
+	if ck, ok := u.keys[k]; ok {
+		return ck
+	}
+	r := u.kr.fork(uint64(k))
+	if u.chans == nil {
+		pr := u.kr.fork(1 << 40)
+		u.chans = []uint64{u.chanBase, vAliasBase + uint64(pr.intn(1000)), u.u64Class(pr),
+			u.u64Class(pr)}
+	}
+	ck := CircuitKey{ChanID: lnwire.NewShortChanIDFromInt(vPick(r, u.chans))}
+	if r.bool() {
+		ck.HtlcID = u.htlcIDClass(r)
+	} else {
+		ck.HtlcID = uint64(k)
+	}
+	for {
+		if _, used := u.keyIDs[ck]; !used {
+			break
+		}
+		ck.HtlcID = (ck.HtlcID + 1<<33) % (1 << 63)
+	}
+	u.keys[k] = ck
+	u.keyIDs[ck] = k
+	return ck
+}
+func (u *vUniverse) keyID(k CircuitKey) int {
+	if id, ok := u.keyIDs[k]; ok {
+		return id
+	}
+	return 999999 // a circuit key the harness never sent
+}
 
 func vFeatures(bits ...lnwire.FeatureBit) *lnwire.FeatureVector {
 	return lnwire.NewFeatureVector(lnwire.NewRawFeatureVector(bits...), lnwire.Features)
@@ -381,6 +447,11 @@ type vSnapHtlc struct {
 	Expiry uint32 `json:"expiry"`
 	Height uint32 `json:"height"`
 	State  string `json:"state"`
+	// ResolveTime is set (non-zero) in the stored record
+	Resolved bool `json:"resolved"`
+	// the circuit key as stored
+	Chan uint64 `json:"chan"`
+	Htlc uint64 `json:"htlc"`
 	// AMP only (ids; amp_pre -1 = none)
 	Amp     bool   `json:"amp"`
 	SetID   int    `json:"set_id"`
@@ -513,7 +584,8 @@ func (r *vRun) snapshot() []vSnap {
 		for k, h := range inv.Htlcs {
 			sh := vSnapHtlc{Key: r.u.keyID(k), Amt: uint64(h.Amt),
 				Total: uint64(h.MppTotalAmt), Expiry: h.Expiry, Height: h.AcceptHeight,
-				State: vHState(h.State)}
+				State: vHState(h.State), Resolved: !h.ResolveTime.IsZero(),
+				Chan: k.ChanID.ToUint64(), Htlc: k.HtlcID}
 			sh.AmpPre = -1
 			if h.AMP != nil {
 				sh.Amp = true
@@ -646,7 +718,8 @@ func (r *vRun) timeout(h *vHtlc) {
 func vNewUniverse(r *vrng, npre, nextra, naddr int, ci int) *vUniverse {
 	u := &vUniverse{preID: map[[32]byte]int{}, chanBase: uint64(1000 + 4*ci),
 		hashIDs: map[[32]byte]int{}, shareIDs: map[[32]byte]int{}, setIDs: map[[32]byte]int{},
-		nextAux: 500, ampSeen: map[string]bool{}}
+		nextAux: 500, ampSeen: map[string]bool{}, kr: r.fork(0xc1c1),
+		keys: map[int]CircuitKey{}, keyIDs: map[CircuitKey]int{}}
 	for i := 0; i < npre; i++ {
 		var p [32]byte
 		copy(p[:], r.bytes(32))
@@ -730,8 +803,11 @@ func vModelCase(t *testing.T, r *vrng, ci int, backend string, mk VMakeDB) *vCas
 	}
 
 	// --- invoices ---
-	baseHeight := int32(vPick(r, []int{1, 100, 700000}))
-	values := []uint64{0, 1, 1000, 100000, 100000, 2500}
+	// heights: small, realistic, and just below the int32 limit (expiries then
+	// cross 2^31: the SQL store keeps them in int32 columns)
+	baseHeight := int32(vPick(r, []int{1, 100, 700000, 700000, 1<<31 - 61}))
+	// amounts: boundary-small, ordinary, and large (< 2^63: int64 columns)
+	values := []uint64{0, 1, 1000, 100000, 100000, 2500, 1 << 60}
 	var invs []*vInvoice
 	ninv := 2 + r.intn(2)
 	for i := 0; i < ninv; i++ {
@@ -796,6 +872,9 @@ func vModelCase(t *testing.T, r *vrng, ci int, backend string, mk VMakeDB) *vCas
 		}
 		// boundary: exactly enough, one short, one more; sometimes plenty
 		off := vPick(r, []int32{0, 0, 0, 1, -1, 30})
+		if r.intn(25) == 0 {
+			return 1<<32 - 1 // the largest expiry
+		}
 		if r.intn(8) == 0 {
 			// between the two deltas
 			lo := v.Delta
@@ -1022,8 +1101,8 @@ func vAmpCase(t *testing.T, r *vrng, ci int, backend string, mk VMakeDB) *vCase 
 	c := &vCase{Kind: "amp", Backend: backend, Case: ci,
 		Cfg: map[string]any{"rd": rd, "keysend": false, "kshold": false, "amp": spont,
 			"kv": backend == "kv"}}
-	baseHeight := int32(vPick(r, []int{100, 100, 700000}))
-	value := uint64(vPick(r, []int{0, 1000, 1000, 90000}))
+	baseHeight := int32(vPick(r, []int{100, 100, 700000, 1<<31 - 61}))
+	value := vPick(r, []uint64{0, 1000, 1000, 90000, 1 << 60})
 	invA := &vInvoice{Hash: 3, Value: value, Delta: int32(vPick(r, []int{4, 4, 9, 3})),
 		Amp: true, Addr: 1, Kind: "amp_invoice"}
 	one := 1
@@ -1362,8 +1441,8 @@ func vAmpSetsCase(t *testing.T, r *vrng, ci int, backend string, mk VMakeDB) *vC
 	c := &vCase{Kind: "ampsets", Scn: vAmpSetScenarios[scn], Backend: backend, Case: ci,
 		Cfg: map[string]any{"rd": rd, "keysend": false, "kshold": false, "amp": false,
 			"kv": backend == "kv"}}
-	baseHeight := int32(vPick(r, []int{100, 700000}))
-	value := uint64(vPick(r, []int{0, 1000, 3000, 90000}))
+	baseHeight := int32(vPick(r, []int{100, 700000, 1<<31 - 61}))
+	value := vPick(r, []uint64{0, 1000, 3000, 90000, 1 << 60})
 	if scn == 2 && value == 0 {
 		value = 1000
 	}
